@@ -43,7 +43,7 @@ func main() {
 			fmt.Fprintln(os.Stderr, "unknown property", *prop)
 			os.Exit(2)
 		}
-		f(c)
+		c.RunMonitor(f)
 	}
 	c.Finish(*hashes)
 	b, _ := json.Marshal(&c.Res)
